@@ -229,13 +229,19 @@ exactly the ten endpoints of the model, in every one of them a checked `verifyPa
 dominates the subscriber fan-out, the value put into the set is the verified value and it is filed
 under the public key it was verified for; the methods with a second gate are exactly those the
 model gives one; and in `parsigex.handle` the verification loop over the received set dominates the
-subscriber loop, which is handed that same set. A new endpoint, or an existing one that stops
+subscriber loop, which is handed that same set, and the gater is consulted before both;
+`verifyPartialSig` verifies its argument under the share looked up for its public-key argument and
+the secure constructor leaves `insecureTest` unset. A new endpoint, or an existing one that stops
 verifying, makes this statement false. -/
 theorem every_endpoint_verifies :
     Generated.Vapi.vapiRows.map (·.method) = Endpoint.all.map Endpoint.goName ∧
     Generated.Vapi.vapiRows.all HandlerRow.good = true ∧
     Generated.Vapi.gateRows.map (·.1) = (Endpoint.all.filter Endpoint.hasGate).map Endpoint.goName ∧
-    Generated.Vapi.parsigexRows = [⟨"handle", true, true, true⟩] := by
+    Generated.Vapi.parsigexRows = [⟨"handle", true, true, true⟩] ∧
+    Generated.Vapi.shapeRows =
+      [("verifyPartialSig.verifies_cast_of_arg_under_share_of_pubkey_arg", true),
+       ("NewComponent.leaves_insecureTest_false", true),
+       ("handle.gater_checked_before_verification_and_subscribers", true)] := by
   decide
 
 /-! ### Non-vacuity (concrete runs of the model) -/
